@@ -3,6 +3,7 @@
     origin ID (HKDF-SHA-384), token bytes; plus arithmetic modulo the group orders so that closed forms
     (b*d mod N, inverses) can be bridged to curve points by an independent scalar multiplication. *)
 From PatVerif Require Export Base.Hash Base.Der.
+From PatVerif Require Import Base.Zq.
 Open Scope N_scope.
 
 Definition order_p224 : N := 26959946667150639794667015087019625940457807714424391721682722368061.
@@ -25,17 +26,11 @@ Definition dst_ecdsa_key_blind : list byte :=   (* "ECDSA Key Blind" *)
 Definition ecdsa_blind_factor (c : N) (blind_key context : list byte) : N :=
   hash_to_field (curve_hash c) (be_min (be_dec_h blind_key) ++ [x00] ++ context) dst_ecdsa_key_blind (curve_L c) (curve_order c).
 
-(** modular arithmetic; the inverse by the extended Euclidean algorithm (fuel = twice the bit size of the modulus is
-    more than the number of division steps).  [r0 = s0 * a (mod q)] is the loop invariant; when the gcd is 1 the
-    result is the inverse.  Every use in the harness re-checks a * invm a = 1 (mod q). *)
+(** modular arithmetic; the inverse is Base/Zq.v [inv_mod]: the extended Euclidean algorithm by well-founded recursion
+    (no fuel), PROVED there to be the inverse modulo every prime ([inv_mod_correct]); [invm_correct] below carries that
+    statement to N.  The extracted code is the plain recursive loop. *)
 Definition mulm (q a b : N) : N := (a * b) mod q.
-Fixpoint egcd (fuel : nat) (r0 r1 s0 s1 : Z) : Z :=
-  match fuel with
-  | O => s0
-  | S f => if (r1 =? 0)%Z then s0 else let k := (r0 / r1)%Z in egcd f r1 (r0 - k * r1)%Z s1 (s0 - k * s1)%Z
-  end.
-Definition invm (q a : N) : N :=
-  Z.to_N ((egcd (2 * N.to_nat (N.size q) + 2) (Z.of_N (a mod q)) (Z.of_N q) 1 0) mod Z.of_N q).
+Definition invm (q a : N) : N := Z.to_N (inv_mod (Z.of_N q) (Z.of_N a)).
 
 (** little-endian *)
 Definition le_val (l : list byte) : N := be_dec_h (rev l).
